@@ -506,7 +506,7 @@ var Prop = &fw.Prop{
 		"Non-trivial = a boundary value, a width above 32, or a leaf-list with an empty member; distinct = distinct script.",
 	Quick: 3000, Thorough: 120000,
 	Gen: gen, Enumerate: enumerate,
-	NewReal:  func() fw.Real { return fw.RealFunc(exec) },
+	NewReal:  func() fw.Real { return &realState{} },
 	Monitor:  monitor,
 	Shrink:   shrinkCase,
 	RealOnly: func(line string) bool {
